@@ -39,8 +39,11 @@ package ast
 //@ iface ast.Node.TokenLiteral(n) r
 //@ requires pay(n) != 0
 //@ assigns nothing
+// the token a node was built from (nodes are immutable after parsing)
+//@ spec tokof(n any) token.Token
 //@ iface ast.Node.T(n) r
 //@ requires pay(n) != 0
+//@ ensures r == tokof(n)
 //@ assigns nothing
 
 // ---- C03: the String/InnerText methods are nil-safe given the invariants above ----
